@@ -42,6 +42,30 @@ func main() {
 		}
 		return
 	}
+	// debugging aid: vcheck session <script.json> <existing.h5> runs the ops on an existing file
+	if len(os.Args) >= 4 && os.Args[1] == "session" {
+		b, err := os.ReadFile(os.Args[2])
+		if err != nil {
+			fmt.Println(err)
+			os.Exit(2)
+		}
+		var s hx.Script
+		if err := json.Unmarshal(b, &s); err != nil {
+			fmt.Println(err)
+			os.Exit(2)
+		}
+		e := &hx.Exec{Path: os.Args[3]}
+		for i := range s.Ops {
+			r := e.Step(i, &s.Ops[i])
+			fmt.Printf("%3d %-50s %+v\n", i, s.Ops[i].String(), r)
+		}
+		d := dump.File(os.Args[3], dump.Options{})
+		fmt.Printf("open: %+v\n", d.OpenRes)
+		for _, o := range d.Objects {
+			fmt.Println(o.Logical())
+		}
+		return
+	}
 	// debugging aid: vcheck dump <file.h5> prints the logical dump through the library's reader
 	if len(os.Args) >= 3 && os.Args[1] == "dump" {
 		d := dump.File(os.Args[2], dump.Options{})
@@ -80,6 +104,11 @@ func main() {
 			fmt.Println("==", mode, "objects:", len(sf.Objects), "extents:", len(sf.Extents), "fields:", len(sf.Fields), "tolerances used:", sf.TolerancesUsed)
 			for k, n := range keys {
 				fmt.Printf("   %-45s %d\n", k, n)
+			}
+			if mode == "tolerant" && os.Getenv("VERIF_EXTENTS") != "" {
+				for _, x := range sf.Extents {
+					fmt.Printf("   extent [%d,%d) %s of %s\n", x.Start, x.End, x.Kind, x.Owner)
+				}
 			}
 			if mode == "tolerant" {
 				sf.Walk(func(path string, o *specdec.Object, l *specdec.Link) {
